@@ -2,8 +2,8 @@ package obl
 
 import (
 	"fmt"
-	"os"
 	"go/types"
+	"os"
 	"sort"
 	"strings"
 )
